@@ -76,6 +76,7 @@ type ProofSpec struct {
 	RawSig   string `json:"raw_sig,omitempty"`   // hex: use these bytes as the signature
 	NoSig    bool   `json:"no_sig,omitempty"`    // empty signature
 	SeqOfDID string `json:"seq_of_did,omitempty"` // take "cur" from this DID instead of the message's
+	ContentStored bool `json:"content_stored,omitempty"` // the proof is made over the document currently stored for the DID
 	HighS    bool   `json:"high_s,omitempty"`    // the other (r, N-s) form of the genuine signature: the same ECDSA signature in its malleable, non-canonical encoding
 	ContentDoc *DocSpec `json:"content_doc,omitempty"` // the proof is made over THIS document (a genuine proof of another document of the same DID, transplanted)
 }
@@ -212,6 +213,8 @@ func (bc *BuildCtx) proof(p *ProofSpec, did string, content *didtypes.DIDDocumen
 	}
 	c := content
 	switch {
+	case p.ContentStored && bc.DidDoc != nil && bc.DidDoc(did) != nil:
+		c = bc.DidDoc(did)
 	case p.ContentDoc != nil:
 		c = bc.Env.BuildDoc(p.ContentDoc)
 	case p.Content == "other":
